@@ -48,6 +48,42 @@ func (w *World) Legal(op Op) bool {
 		return s.Foreign[op.Key] != nil
 	case OpSetPred:
 		return true
+	case OpHostile:
+		for _, n := range op.Need {
+			kind, id, _ := strings.Cut(n, ":")
+			switch kind {
+			case "app-live":
+				if _, live := w.Last.Apps[id]; !accepted(id) || !live {
+					return false
+				}
+			case "app-gone":
+				if a := s.Apps[id]; a == nil || (a.State != "removed" && a.State != "rejected") {
+					return false
+				}
+			case "node-live":
+				if !liveNode(id) {
+					return false
+				}
+			case "node-gone":
+				if n := s.Nodes[id]; n == nil || n.State != "removed" {
+					return false
+				}
+			case "no-app":
+				if _, ok := w.Last.Apps[id]; ok {
+					return false
+				}
+			case "key-outstanding":
+				k := s.Keys[id]
+				if k == nil || k.State != KOutstanding {
+					return false
+				}
+				a := w.Last.Apps[k.App]
+				if a == nil || a.Asks[id] == nil || a.Asks[id].Allocated || !a.Asks[id].Res.Eq(k.Res) {
+					return false
+				}
+			}
+		}
+		return true
 	}
 	return true
 }
@@ -64,7 +100,7 @@ func ReplayWorld(confYAML string, opts WorldOpts, ops []Op, epilogue bool, stric
 		if w.Dead || len(w.Vios) > 0 {
 			break
 		}
-		if strict && op.Kind != OpHostile && !w.Legal(op) {
+		if strict && !w.Legal(op) {
 			return w, true, "illegal op " + op.String()
 		}
 		w.Step(op)
@@ -97,7 +133,7 @@ func Signature(msg string) string {
 }
 
 // MinimizeTrace removes ops from a failing history while it stays legal and keeps failing the same way.
-func MinimizeTrace(confYAML string, opts WorldOpts, ops []Op, epilogue bool, prop, msg string, budget time.Duration) ([]Op, *World) {
+func MinimizeTrace(confYAML string, opts WorldOpts, ops []Op, epilogue bool, prop, msg string, budget time.Duration, also ...string) ([]Op, *World) {
 	sig := Signature(msg)
 	deadline := time.Now().Add(budget)
 	var best *World
@@ -105,7 +141,7 @@ func MinimizeTrace(confYAML string, opts WorldOpts, ops []Op, epilogue bool, pro
 	tries := 1
 	fails := func(cand []Op) bool {
 		for i := 0; i < tries; i++ {
-			w, illegal, _ := ReplayWorld(confYAML, opts, cand, epilogue, true, prop)
+			w, illegal, _ := ReplayWorld(confYAML, opts, cand, epilogue, true, append([]string{prop}, also...)...)
 			if w == nil || illegal {
 				return false
 			}
